@@ -21,6 +21,7 @@ import (
 	"maps"
 	"math"
 	"regexp"
+	"sort"
 	"strconv"
 	"strings"
 	"sync"
@@ -2086,6 +2087,47 @@ func ExecSelect(query *Query, current []any) ([]any, error) {
 	return copy, nil
 }
 
+// fingerprint writes a text that two values share exactly when they are the
+// same value: strings are quoted, so "1" and 1 - or {"a": "x b:y"} and {"a":
+// "x", "b": "y"} - differ; numbers are written by their value, whatever Go type
+// they arrived as (0 and -0, int(1) and float64(1) are one number each)
+func fingerprint(text *strings.Builder, value any) {
+	switch value := value.(type) {
+	case nil:
+		text.WriteString("null")
+	case string:
+		text.WriteString(strconv.Quote(value))
+	case bool:
+		text.WriteString(strconv.FormatBool(value))
+	case int, int8, int16, int32, int64, uint, uint8, uint16, uint32, uint64, float32, float64:
+		text.WriteString("#")
+		text.WriteString(compare.Text(value))
+	case Map:
+		keys := make([]string, 0, len(value))
+		for key := range value {
+			keys = append(keys, key)
+		}
+		sort.Strings(keys)
+		text.WriteString("{")
+		for _, key := range keys {
+			text.WriteString(strconv.Quote(key))
+			text.WriteString(":")
+			fingerprint(text, value[key])
+			text.WriteString(",")
+		}
+		text.WriteString("}")
+	case []any:
+		text.WriteString("[")
+		for _, item := range value {
+			fingerprint(text, item)
+			text.WriteString(",")
+		}
+		text.WriteString("]")
+	default:
+		fmt.Fprintf(text, "%#v", value)
+	}
+}
+
 func ExecDistinct(query *Query, current []any) ([]any, error) {
 	if !query.distinct {
 		return current, nil
@@ -2094,9 +2136,9 @@ func ExecDistinct(query *Query, current []any) ([]any, error) {
 	slice := make([]any, 0)
 	for _, item := range current {
 		sha256 := sha256.New()
-		// %#v keeps strings quoted, so "1" and 1 - or {"a": "x b:y"} and
-		// {"a": "x", "b": "y"} - do not share a fingerprint as they do under %v
-		_, err := sha256.Write([]byte(fmt.Sprintf("%#v", item)))
+		var text strings.Builder
+		fingerprint(&text, item)
+		_, err := sha256.Write([]byte(text.String()))
 		if err != nil {
 			return nil, err
 		}
